@@ -8,6 +8,8 @@ NOTE = ("Trusted: z3 5.1 / cvc5 1.0.3 verdicts; the pyvc executor's encoding of 
         "bs4/lxml/cssutils; floats under the standard error model (binary64, round-to-nearest, no overflow); "
         "the bounded parts are run-time contract evaluation, never counted as proof. See evidence/<id>.json.")
 CLAIMED = {
+ "C04": ("contract-based deductive verification of the WebVTT entity-decoding order on structured strings + bounded run-time contracts with independent serialisers",
+         "P: WebVTT _decode decodes each reference between arbitrary safe text exactly once (ampersand last); B: exhaustive short cue texts against the cue-text rules, and documents of the five formats generated from an abstract model (entity spellings, style tags, voice tags, line-break markup, wrapped source lines) read back to the authored lines (one known finding: line break next to an inline element)", "3 C04"),
  "C07": ("contract-based deductive verification of the hand-written span markup (loop invariant, abstract markup counter) + bounded run-time contracts with a strict XML parser and reference-resolution checks",
          "P (every node sequence): DFXP and legacy DFXP text has balanced <span> markup and leaves no span open after a flat balanced caption; B: sets from all readers and API-built sets with hostile characters x three writers x options x force: strict XML, tt namespace, one div per language, one p per caption/run, unique ids, resolving references, every region referenced (two known findings)", "3 C07"),
  "C03": ("bounded run-time contracts with independent conformant parsers (the text path of the writers goes through bs4 / multi-character replace chains, outside the deductive subset); span-markup balance of the DFXP writer by loop invariant",
